@@ -12,6 +12,18 @@
 (*                        AT  {[key] N REF a, [key] N REF b, [key] M REF c}*)
 (*                        AL  {[key] id, N REF r1, M REF r2}  (ends may be *)
 (*                             NULL = end 0; only AL has optional ends)    *)
+(*                        ABX {[key] N REF r1, [key] M REF r2}  a class    *)
+(*                             whose place in the hierarchy is part of the *)
+(*                             REPOSITORY, per namespace: it may be absent *)
+(*                             in a namespace, or a subclass of AB, or a   *)
+(*                             subclass of ABS - differently in the two    *)
+(*                             namespaces, and it may be added (CreateClass*)
+(*                             / add_cimobjects) between two traversals.   *)
+(*                             A class filter is judged by the hierarchy   *)
+(*                             of the namespace whose store holds the      *)
+(*                             association instance; ABX instances live in *)
+(*                             ONE namespace (both ends there), so that    *)
+(*                             this is unambiguous.                        *)
 (*                                                                         *)
 (* A graph G = [nodes, assocs]:                                            *)
 (*   nodes[i]  = [ns, cls, sv, kid] stored node instance i (sv = token of  *)
@@ -20,7 +32,9 @@
 (*               same class and key values ("twins"); they are different   *)
 (*               objects, an association referencing one says nothing      *)
 (*               about the other)                                          *)
-(*   assocs[j] = [cls, ends, ns, g, w, pns] one STORED copy of an          *)
+(*   xpar      = <<p1, p2>>: superclass of ABX in namespace 1 / 2 ("" =    *)
+(*               no such class there), read from the class stores          *)
+(*   assocs[j] = [cls, ends, ns, g, w, pns, xp] one STORED copy of an      *)
 (*               association instance: ends[p] = node index or 0, ns =     *)
 (*               namespace whose instance store holds the copy, g =        *)
 (*               identity of the instance modulo namespace (class +        *)
@@ -28,7 +42,8 @@
 (*               non-reference property `note` (0 = not set; set by        *)
 (*               ModifyInstance), pns = namespace stated by the stored     *)
 (*               object's own path (not used by the requirement; the       *)
-(*               code-shaped machine looks paths up by it).                *)
+(*               code-shaped machine looks paths up by it), xp = xpar[ns]  *)
+(*               for a copy of class ABX, "" otherwise.                    *)
 (*                                                                         *)
 (* Event style (TraceKit): Fails(s, e) = names of the statement's clauses  *)
 (* that the recorded responses of event e violate, Apply(s, e) = next      *)
@@ -39,6 +54,10 @@
 (*   [op "graph", nodes, assocs, acs, rcs, rls]   first event of a trace;  *)
 (*        acs/rcs/rls = filter token lists used by all later events        *)
 (*        ("" = filter not given, always first in each list)               *)
+(*   [op "regraph", nodes, assocs, xpar, acs, rcs, rls]   the repository   *)
+(*        as it is after further write operations (instances created,      *)
+(*        CreateInstance calls REJECTED, classes added); same filter lists;*)
+(*        later events are judged against it                               *)
 (*   [op "src", x, aq, rq]   every filter combination for source node x:   *)
 (*        aq[AqIdx(ia,ic,io,ir)].o[t] response of associator operation t   *)
 (*        with AssocClass acs[ia], ResultClass rcs[ic], Role rls[io],      *)
@@ -62,7 +81,7 @@ Mod(a, b) == a - b * (a \div b)
 
 (*------------------------------ schema ----------------------------------*)
 NodeClasses == {"N", "NS", "NSS", "M"}
-AssocClasses == {"AB", "ABS", "ABSS", "AT", "AL"}
+AssocClasses == {"AB", "ABS", "ABSS", "AT", "AL", "ABX"}
 Classes == NodeClasses \cup AssocClasses
 (* direct superclass ("" = none) *)
 Parent(c) == CASE c = "NS" -> "N" [] c = "NSS" -> "NS"
@@ -78,19 +97,29 @@ Subtree(c) == CASE c = "N" -> {"N", "NS", "NSS"} [] c = "NS" -> {"NS", "NSS"}
                 [] c = "AB" -> {"AB", "ABS", "ABSS"}
                 [] c = "ABS" -> {"ABS", "ABSS"} [] c = "ABSS" -> {"ABSS"}
                 [] c = "AT" -> {"AT"} [] c = "AL" -> {"AL"}
+                [] c = "ABX" -> {"ABX"}
                 [] OTHER -> {}
 ASSUME \A f \in Classes : Subtree(f) = {c \in Classes : Descends(c, f)}
-Roles(c) == CASE c \in {"AB", "ABS", "ABSS", "AL"} -> <<"r1", "r2">>
+Roles(c) == CASE c \in {"AB", "ABS", "ABSS", "AL", "ABX"} -> <<"r1", "r2">>
               [] c = "AT" -> <<"a", "b", "c">>
               [] OTHER -> <<>>
-RefClass(c) == CASE c \in {"AB", "ABS", "ABSS", "AL"} -> <<"N", "M">>
+RefClass(c) == CASE c \in {"AB", "ABS", "ABSS", "AL", "ABX"} -> <<"N", "M">>
                  [] c = "AT" -> <<"N", "N", "M">>
                  [] OTHER -> <<>>
 RoleNames == {"r1", "r2", "a", "b", "c"}
 Optional(c) == c = "AL"
 Namespaces == {1, 2}
 
+XParents == {"", "AB", "ABS"}
 GraphOk(G) ==
+  /\ DOMAIN G.xpar = 1..2 /\ \A n \in 1..2 : G.xpar[n] \in XParents
+  /\ \A j \in DOMAIN G.assocs :
+        LET a == G.assocs[j] IN
+        IF a.cls = "ABX"
+        THEN /\ a.ns \in Namespaces /\ a.xp = G.xpar[a.ns] /\ a.xp # ""
+             /\ \A p \in DOMAIN a.ends :
+                   a.ends[p] \in DOMAIN G.nodes => G.nodes[a.ends[p]].ns = a.ns
+        ELSE a.xp = ""
   /\ \A i \in DOMAIN G.nodes :
         G.nodes[i].cls \in NodeClasses /\ G.nodes[i].ns \in Namespaces
   (* a store is a keyed map: namespace + creation class + key values       *)
@@ -108,6 +137,11 @@ GraphOk(G) ==
 
 (*------------------ the declarative requirement -------------------------*)
 ClassOk(c, f) == f = "" \/ c \in Subtree(f)
+(* class filter on a stored association instance: the hierarchy of the     *)
+(* namespace that holds it (ABX: a subclass of a.xp there)                 *)
+CopyClassOk(a, f) ==
+  \/ ClassOk(a.cls, f)
+  \/ a.cls = "ABX" /\ a.xp # "" /\ a.xp \in Subtree(f)
 RoleOk(p, f) == f = "" \/ p = f
 
 (* stored association instances that reference x *)
@@ -124,13 +158,13 @@ AssocsVia(G, near, x, ac, rc, ro, rr) ==
              /\ ClassOk(G.nodes[a.ends[q]].cls, rc)
              /\ \E p \in DOMAIN a.ends :
                    p # q /\ a.ends[p] = x /\ RoleOk(Roles(a.cls)[p], ro)}}
-         : a \in {b \in near : ClassOk(b.cls, ac)}}
+         : a \in {b \in near : CopyClassOk(b, ac)}}
 Assocs(G, x, ac, rc, ro, rr) == AssocsVia(G, Touching(G, x), x, ac, rc, ro, rr)
 
 (* association instances (identity modulo namespace) referencing x *)
 RefsVia(near, x, rc, ro) ==
   {a.g : a \in {b \in near :
-          /\ ClassOk(b.cls, rc)
+          /\ CopyClassOk(b, rc)
           /\ \E p \in DOMAIN b.ends :
                 b.ends[p] = x /\ RoleOk(Roles(b.cls)[p], ro)}}
 Refs(G, x, rc, ro) == RefsVia(Touching(G, x), x, rc, ro)
@@ -146,9 +180,11 @@ AqMayErr(ac, rc, ro, rr) ==
   \/ BadClass(ac, AssocClasses) \/ BadClass(rc, NodeClasses)
   \/ BadRole(ro, ac) \/ BadRole(rr, ac)
 RqMayErr(rc, ro) == BadClass(rc, AssocClasses) \/ BadRole(ro, rc)
+(* a filter naming ABX in a namespace that has no such class               *)
+XAbsent(G, x, f) == f = "ABX" /\ G.xpar[G.nodes[x].ns] = ""
 
 (*--------------------------- event plumbing -----------------------------*)
-InitState == [G |-> [nodes |-> <<>>, assocs |-> <<>>],
+InitState == [G |-> [nodes |-> <<>>, assocs |-> <<>>, xpar |-> <<"", "">>],
               acs |-> <<"">>, rcs |-> <<"">>, rls |-> <<"">>,
               started |-> FALSE, done |-> <<>>]
 
@@ -180,7 +216,9 @@ None(list) == {i \in DOMAIN list : list[i] = ""}
 
 (*------------------------------ graph event -----------------------------*)
 GraphFails(s, e) ==
-  IF /\ ~s.started /\ GraphOk([nodes |-> e.nodes, assocs |-> e.assocs])
+  IF /\ (IF e.op = "graph" THEN ~s.started
+        ELSE s.started /\ e.acs = s.acs /\ e.rcs = s.rcs /\ e.rls = s.rls)
+     /\ GraphOk([nodes |-> e.nodes, assocs |-> e.assocs, xpar |-> e.xpar])
      /\ Len(e.acs) > 0 /\ Len(e.rcs) > 0 /\ Len(e.rls) > 0
      /\ e.acs[1] = "" /\ e.rcs[1] = "" /\ e.rls[1] = ""
   THEN {} ELSE {"Malformed.graph"}
@@ -200,7 +238,8 @@ AqFails(s, e) ==
       fo(i) == s.rls[AqIo(s, i)]
       fr(i) == s.rls[AqIr(s, i)]
       D == [i \in I |-> AssocsVia(G, near, x, fa(i), fc(i), fo(i), fr(i)) \ {x}]
-      E == [i \in I |-> AqMayErr(fa(i), fc(i), fo(i), fr(i))]
+      E == [i \in I |-> AqMayErr(fa(i), fc(i), fo(i), fr(i))
+                         \/ XAbsent(G, x, fa(i))]
       R(i, t) == e.aq[i].o[t]
       (* the queries obtained from query i by dropping one given filter *)
       Gens(i) ==
@@ -248,7 +287,7 @@ RqFails(s, e) ==
       fc(i) == s.acs[RqIa(s, i)]
       fo(i) == s.rls[RqIo(s, i)]
       D == [i \in I |-> RefsVia(near, x, fc(i), fo(i))]
-      E == [i \in I |-> RqMayErr(fc(i), fo(i))]
+      E == [i \in I |-> RqMayErr(fc(i), fo(i)) \/ XAbsent(G, x, fc(i))]
       R(i, t) == e.rq[i].o[t]
       Stored(r) == \A j \in DOMAIN r.ids : r.ids[j] \in DOMAIN G.assocs
       Gens(i) ==
@@ -328,14 +367,14 @@ ClsFails(s, e) ==
 
 (*------------------------------- machine --------------------------------*)
 Fails(s, e) ==
-  CASE e.op = "graph" -> GraphFails(s, e)
+  CASE e.op \in {"graph", "regraph"} -> GraphFails(s, e)
     [] e.op = "src" -> SrcFails(s, e)
     [] e.op = "cls" -> ClsFails(s, e)
     [] OTHER -> {"Malformed.op"}
 
 Apply(s, e) ==
-  CASE e.op = "graph" ->
-         [G |-> [nodes |-> e.nodes, assocs |-> e.assocs],
+  CASE e.op \in {"graph", "regraph"} ->
+         [G |-> [nodes |-> e.nodes, assocs |-> e.assocs, xpar |-> e.xpar],
           acs |-> e.acs, rcs |-> e.rcs, rls |-> e.rls,
           started |-> TRUE, done |-> <<>>]
     [] e.op = "src" ->
